@@ -41,7 +41,7 @@ fn main() {
         Some("build-child") if args.len() == 6 => {
             let hx = |s: &str| -> Option<u8> { if s == "-" { None } else { u8::from_str_radix(s, 16).ok() } };
             let on = |s: &str| -> Option<usize> { if s == "-" { None } else { s.parse().ok() } };
-            gen::build_child(hx(&args[2]).unwrap_or(b'0'), args[3].parse().unwrap_or(0), hx(&args[4]), on(&args[5]));
+            gen::build_child(replay::unhex(&args[2]), args[3].parse().unwrap_or(0), hx(&args[4]), on(&args[5]));
         }
         Some("rerun") if args.len() >= 3 => {
             // prints the protocol line of a recorded case with the implementation's current result
